@@ -922,7 +922,7 @@ func replay(c *common.Ctx, path string) int {
 
 func init() {
 	common.Register(&common.Prop{
-		ID: "C13", Level: "model_checking", Sharded: true, Run: run, Coverage: coverage, Replay: replay,
+		ID: "C13", Level: "model_checking", Sharded: true, Run: run, Coverage: coverage, Replay: replay, Race: raceBody,
 		Assumptions: []string{
 			"interleavings are explored at lock-acquisition granularity: every Lock/RLock of the (rewritten) scope mutex is a schedule point; code between two lock operations of one thread is atomic, which is sound because the lockset monitor checks that every access to values/types in between happens under the lock",
 			"RWMutex shadow semantics: writer excludes all, readers exclude writers, a pending writer blocks new readers (Go's writer preference)",
